@@ -3,6 +3,7 @@ package checks
 import (
 	"context"
 	"fmt"
+	"math/rand"
 	"net/netip"
 	"time"
 
@@ -100,7 +101,7 @@ func checkC04() fw.Check {
 		Gen: func(tier string, seed int64) []fw.Case {
 			wins, bases := []window{{1, 8}, {3, 12}, {250, 255}}, basesQuick
 			if tier == "thorough" {
-				wins, bases = []window{{1, 8}, {3, 12}, {250, 255}, {1, 30}, {2, 9}}, basesThorough
+				wins, bases = append([]window{{1, 8}, {3, 12}, {250, 255}, {1, 30}, {2, 9}}, thoroughWindows(seed, 10)[len(windowsThorough):]...), thoroughBases(seed, 3)
 			}
 			var cases []fw.Case
 			for _, v := range refmatch.Variants {
@@ -197,6 +198,33 @@ type delayPlan struct {
 	f    func(i, n int) (time.Duration, []time.Duration)
 }
 
+// randomDelayPlans: k seed-determined plans mixing sub-millisecond, millisecond and near-budget delays per hop, some
+// hops with a later duplicate.
+func randomDelayPlans(budget time.Duration, seed int64, k int) []delayPlan {
+	var out []delayPlan
+	for j := 0; j < k; j++ {
+		j := j
+		out = append(out, delayPlan{fmt.Sprintf("rand%d", j), func(i, n int) (time.Duration, []time.Duration) {
+			r := rand.New(rand.NewSource(seed*1000003 + int64(j)*977 + int64(i)))
+			var d time.Duration
+			switch r.Intn(5) {
+			case 0:
+				d = time.Duration(10+r.Intn(900)) * time.Microsecond
+			case 1:
+				d = budget - time.Duration(1+r.Intn(40))*time.Millisecond
+			default:
+				d = time.Duration(1+r.Intn(400))*time.Millisecond + time.Duration(r.Intn(1000))*time.Microsecond
+			}
+			var dups []time.Duration
+			if r.Intn(4) == 0 {
+				dups = []time.Duration{d + time.Duration(1+r.Intn(300))*time.Millisecond}
+			}
+			return d, dups
+		}})
+	}
+	return out
+}
+
 func delayPlans(budget time.Duration) []delayPlan {
 	ms := time.Millisecond
 	return []delayPlan{
@@ -229,7 +257,7 @@ func checkC05() fw.Check {
 		Gen: func(tier string, seed int64) []fw.Case {
 			wins := []window{{1, 8}, {3, 12}, {250, 255}}
 			if tier == "thorough" {
-				wins = []window{{1, 8}, {3, 12}, {250, 255}, {1, 30}, {2, 17}, {1, 64}}
+				wins = append([]window{{1, 8}, {3, 12}, {250, 255}, {1, 30}, {2, 17}, {1, 64}}, thoroughWindows(seed, 24)[len(windowsThorough):]...)
 			}
 			var cases []fw.Case
 			// end-to-end clause: whole requests (1 run + e probes); every sample must be the destination-hop RTT of its own probe
@@ -267,7 +295,11 @@ func checkC05() fw.Check {
 						if v.Serial {
 							budget = time.Second
 						}
-						for _, dp := range delayPlans(budget - 250*time.Millisecond) {
+						plans := delayPlans(budget - 250*time.Millisecond)
+						if tier == "thorough" {
+							plans = append(plans, randomDelayPlans(budget-250*time.Millisecond, seed, 150)...)
+						}
+						for _, dp := range plans {
 							dp := dp
 							id := fmt.Sprintf("C05/%s/%s/%s/%d-%d", v.Name, dp.name, scale, w.first, w.last)
 							cases = append(cases, fw.Case{ID: id, Bubble: true, Run: func(c *fw.Ctx) {
@@ -370,7 +402,7 @@ func checkC06() fw.Check {
 		Gen: func(tier string, seed int64) []fw.Case {
 			wins, bases := windowsThorough, basesThorough[:3]
 			if tier == "thorough" {
-				wins, bases = windowsThorough, basesThorough
+				wins, bases = thoroughWindows(seed, 30), thoroughBases(seed, 10)
 			}
 			var cases []fw.Case
 			// checksum hunt: the UDP source port is chosen by the kernel, so the probe bytes (and their checksum) differ
